@@ -7,8 +7,9 @@ through `vh numfmt …`):
     model on every string and the spec on every well-formed derivation (no known class is left:
     the six former ones were fixed by ac433ce c5a918f a61713f aa1af82 4fe67c6 35d58d0 and their
     witnesses are corpus cases);
-  * all strings up to length 5 (thorough: 7) over the significant alphabet, model vs code, by
-    hashed exhaustive sweeps that are narrowed down to the first differing string on a mismatch;
+  * all strings up to length 5 (thorough: 7) over the significant alphabet and over a second alphabet
+    (era / Buddhist letters, exponent context, start of General), model vs code, by hashed
+    exhaustive sweeps that are narrowed down to the first differing string on a mismatch;
   * random strings over a wide alphabet (upper case, non-ASCII);
   * all 65536 built-in codes, their decimal ids, and non-canonical ids;
   * value wrapping (format_excel_f64 / format_excel_i64);
@@ -22,6 +23,7 @@ import xlsxgen_c10 as xlsxgen
 
 ASSUMPTIONS = [
     "number-format grammar = the token classes of ECMA-376 18.8.30/31 and [MS-XLS] 2.4.126 as written in NumFmt.v (token, wf_tok); bracketed currency strings contain none of [ ] \" \\ _ * ;",
+    "weekday aaa/aaaa, era g/gg/ggg, era year e/ee and Buddhist year bb/bbbb are date tokens (ECMA-376 18.8.30 shows them in the ja-JP / zh-TW / th-TH built-in formats; TEXT(x,\"aaa\") etc. in Excel); an exponent stands directly after a digit placeholder, '.' or ','; not in the grammar (no claim): r / rr, a single b, the calendar prefixes B1 / B2, Thai-letter tokens, \u4e0a\u5348/\u4e0b\u5348",
     "XML parsing of styles.xml, including entity unescaping of formatCode (quick-xml), is outside the model; generated files escape with named, decimal and hexadecimal references",
     "logical style table: custom entries take precedence over built-in ids; BIFF/XLSB custom ids never collide with built-in date ids ([MS-XLS]/[MS-XLSB] restrict ifmt to 5-8, 23-26, 41-44, 63-66, 164-382)",
     "RK decoding (×100 flag, 30-bit integer) is computed by the test driver, not by the C10 model (it belongs to the number-decoding property)",
@@ -29,7 +31,10 @@ ASSUMPTIONS = [
 ]
 TMP = os.path.join(vlib.CACHE, "tmp", "c10")
 ALPHA = '"\\_[];apmdhys/0:.x*'
-WIDE = ALPHA + 'APMDHYSGenrlE+-#?@,%$() \u00e9\u5e74\U0001F600' + "'!&<>=~{}^tTqQ19"
+# second sweep family (audit 2, FMT-1): the era / Buddhist letters, the exponent context (a digit
+# placeholder in front of e) and the start of the keyword General
+ALPHA2 = 'aegbE0+"\\[];G'
+WIDE = ALPHA + 'APMDHYSGenrlE+-#?@,%$() \u00e9\u5e74\U0001F600' + "'!&<>=~{}^tTqQ19" + "gbB"
 
 def hx(s):
     return s.encode("utf-8").hex()
@@ -76,21 +81,45 @@ def t_prefix(rng):
         out.append("O%s:%s" % (hx(cur), hx(lcid)))
     rng.shuffle(out)
     return out
+def t_locale_date(rng):
+    """the date tokens that ECMA-376 shows only in locale-specific built-in formats: aaa / aaaa
+    (day of the week), g / gg / ggg (era), e / ee (year of the era), bb / bbbb (Buddhist year)"""
+    k = rng.randrange(4)
+    if k == 0:
+        long = rng.randrange(2)
+        return "W%d:%s" % (long, ups(rng, 3 + long))
+    if k == 1:
+        n = rng.randrange(0, 3) if rng.random() < 0.95 else 3        # gggg: outside wf
+        return "R%d:%s" % (n, ups(rng, n + 1))
+    if k == 2:
+        long = rng.randrange(2)
+        return "Y%d:%s" % (long, ups(rng, 1 + long))
+    long = rng.randrange(2)
+    return "B%d:%s" % (long, ups(rng, 2 + 2 * long))
 def t_date(rng):
-    k = rng.randrange(10)
+    k = rng.randrange(13)
     if k < 6:
         n = rng.randrange(0, 5)
         return "T%s:%d:%s" % (rng.choice("dmhys"), n, ups(rng, n + 1))
     if k < 8:
         return "A" + ups(rng, 5)
-    return "a" + ups(rng, 3)
+    if k < 10:
+        return "a" + ups(rng, 3)
+    return t_locale_date(rng)
 def t_elapsed(rng):
     n = rng.randrange(0, 3)
     return "H%s:%d:%s" % (rng.choice("hms"), n, ups(rng, n + 1))
 
 def gen_section(rng, risky):
-    kind = rng.randrange(6)
+    kind = rng.randrange(7)
     toks = t_prefix(rng)
+    if kind == 6:       # a date format made only of locale date tokens (weekday column, era year, Buddhist year)
+        toks += [t_common(rng, risky) for _ in range(rng.randrange(0, 2))]
+        toks += [t_locale_date(rng) for _ in range(rng.randrange(1, 4))]
+        if rng.random() < 0.5:
+            toks.insert(rng.randrange(len(toks) + 1), rng.choice(["Q" + hx("\u5e74"), "L40", "L41", "L32", "E32", "G", "D0"]))
+        toks += [t_common(rng, risky) for _ in range(rng.randrange(0, 2))]
+        return " ".join(toks)
     if kind == 0:       # General, possibly with literals around it
         toks += [t_common(rng, risky) for _ in range(rng.randrange(0, 3))]
         toks.append("G" + ups(rng, 7))
@@ -106,6 +135,8 @@ def gen_section(rng, risky):
             if r < 0.5:
                 toks.append("D%d" % rng.randrange(3))
             elif r < 0.6:
+                if rng.random() < 0.8:           # where an exponent belongs: after a placeholder
+                    toks.append(rng.choice(["D0", "D1", "D2", "L46", "L44", "S0"]))
                 toks.append("X%s:%d" % (ups(rng, 1), rng.randrange(2)))
             elif r < 0.7:
                 toks.append("L%d" % ord(rng.choice(".,%/ ")))
@@ -149,6 +180,11 @@ CORPUS_AST = [
     "C4:1 Hm:1:", "C4:1111111 D0", "Ci56: Hh:0:1", "N0:2d31 Ts:0:;Td:0:", "O:463830 Td:3:",
     "G Tm:0:", "G A", "G a1", "E91 Hh:0:", "P91 Ts:0:", "Q5b Hs:1:", "D0 S2", "A11011", "a",
     "Th:0: L58 Tm:1: L58 Ts:1: S2", "F34 Td:0:", "F59 Td:0:", "F92 Td:0:", "D0;Td:0:",
+    # audit 2, FMT-1: formats made only of weekday / era / Buddhist-year tokens; General and the exponent next to them
+    "W0:", "W1:", "O:343131 W1:", "W0:101", "R2: Y0: Q" + "e5b9b4", "Y0:", "Y1:11", "O:343034 Y0:", "B0:", "B1:",
+    "O:44303730343145 B1:", "R0: Y0: L46 Tm:0: L46 Td:0:", "C5: G", "G W0:", "G R0:", "R0: G", "Y0: G", "D0 X1:1 D0",
+    "D0 L46 D0 D0 X:1 D0 D0", "D0 Y0:", "X:1", "Y0: L43", "E48 Y0:", "Q30 Y0:", "P48 Y0:", "F48 Y0:", "S0 X:0",
+    "L44 X:1", "L46 Y0:", "R3:", "E97 W0:", "W0: W0:", "a W0:", "Q61 W0:", "E103 Y0: L110 Y0:", "R0: Y0: E110",
 ]
 
 def run_ast(ctx, n, tag):
@@ -198,14 +234,29 @@ CORPUS_STR = [
     "[h]:mm;[=0]\\-", "[>=100][Magenta].00", "[>=100][Magenta]General", "ha/p\\\\m",
     '#,##0.00\\ _M"H"_);[Red]#,##0.00\\ _M"S"_)', "", "[", "[" * 300 + "h" + "]" * 300, "]" * 5 + "[h]", "[]", "[[h]]",
     "[hH]", "[hm]", "[h" , "a", "aaa", "A/P", "am/pm", "\\", "_", '"', '"wk_"dd', '"a\\"d', "0*d", "General/",
+    # audit 2, FMT-1 (xlsx_8.py of the audit: real format codes of ja / zh / ko / th workbooks)
+    "aaaa", "[$-411]aaaa", "[$-ja-JP]aaa", "yyyy/m/d(aaa)", 'ggge"\u5e74"m"\u6708"d"\u65e5"', "[$-411]ge.m.d", "ggge", "e",
+    "ee", "[$-404]e/m/d", "[$-404]e", "bbbb", "bb", "[$-D07041E]bbbb", "[$-107041E]d mmmm bbbb", "d/m/bb", "AAA", "GGGE",
+    "0.00E+00", "##0.0E+0", "0.0e-0", "#E+0", "?E+0", "0.E+00", "0,E+0", "General", "GENERAL", "general", "generalg",
+    "Generale", "genera", "Gener\u00e9l", "\u00e9General", "[Red]General", '"a"General', "aGeneral", "aaGenerala",
+    "General;aaa", "0e", "\\0e", '"0"e', "_0e", "e+", "e-0", "0e+", "E", "g", "G", "b", "B", "[g]", "[e]", "[b]", '"g"', "\\g",
+    "aa", "aa a", "\\aaa", "\\aaaa", '"a"aa', "aa\\a", "aAa", "a/p", "aa/p", "aaa/p", "[aaa]", "aaaaa", "0 kg", "0 GB",
+    "0.00 EUR", "[h]e", "[$e]", "a" * 300, "[" + "a" * 300, "General" * 3, "Ge", "G\U0001F600neral",
 ]
 def run_strings(ctx, n, tag):
     rng = ctx.rng
     strs = list(CORPUS_STR)
     for _ in range(n):
         L = rng.choice([1, 2, 3, 5, 8, 12, 20])
-        alpha = rng.choice([ALPHA, WIDE, WIDE, '[]hmsHMS"\\_;aA/'])
-        strs.append("".join(rng.choice(alpha) for _ in range(L)))
+        alpha = rng.choice([ALPHA, WIDE, WIDE, '[]hmsHMS"\\_;aA/', ALPHA2, 'aAeEgGbB0#.+-"\\[]; '])
+        w = "".join(rng.choice(alpha) for _ in range(L))
+        if rng.random() < 0.15:                    # the keyword General (any case, or nearly) inside
+            kw = "".join(ch.upper() if rng.random() < 0.3 else ch for ch in "general")
+            if rng.random() < 0.25:
+                kw = kw[:rng.randrange(1, 7)] + rng.choice(["", "x", "\u00e9", "G"]) + kw[rng.randrange(1, 7):]
+            pos = rng.randrange(len(w) + 1)
+            w = w[:pos] + kw + w[pos:]
+        strs.append(w)
     lines = ["%s%d\tnumfmt\tdetect\t%s" % (tag, k, hx(s)) for k, s in enumerate(strs)]
     impl, model = ctx.run_both(lines)
     for k, s in enumerate(strs):
@@ -219,16 +270,16 @@ def run_strings(ctx, n, tag):
                                       "impl": impl.get(lid), "model": model.get(lid), "string": s})
 
 # ------------------------------------------------------------------ exhaustive sweeps
-def sweep_line(lid, length, prefix):
-    return "%s\tnumfmt\tsweep\t%s\t%d\t%s" % (lid, hx(ALPHA), length, hx(prefix))
+def sweep_line(lid, length, prefix, alpha=ALPHA):
+    return "%s\tnumfmt\tsweep\t%s\t%d\t%s" % (lid, hx(alpha), length, hx(prefix))
 
-def narrow(ctx, prefix, length):
+def narrow(ctx, prefix, length, alpha=ALPHA):
     """a sweep of prefix+(length more characters) differs: find one differing string"""
     while length > 0:
-        lines = [sweep_line("n%d" % k, length - 1, prefix + c) for k, c in enumerate(ALPHA)]
+        lines = [sweep_line("n%d" % k, length - 1, prefix + c, alpha) for k, c in enumerate(alpha)]
         i = vlib.run_exe(vlib.VH, lines)
         m = vlib.run_exe(vlib.VM, lines)
-        for k, c in enumerate(ALPHA):
+        for k, c in enumerate(alpha):
             if i.get("n%d" % k) != m.get("n%d" % k):
                 prefix, length = prefix + c, length - 1
                 break
@@ -239,31 +290,31 @@ def narrow(ctx, prefix, length):
     ctx.disagreements.append({"function": "detect_custom_number_format", "case": line,
                               "impl": i.get("w"), "model": m.get("w"), "string": prefix})
 
-def run_sweep(ctx, maxlen):
+def run_sweep(ctx, maxlen, alpha=ALPHA, key="exhaustive_strings"):
     jobs = []          # (id, total length, prefix, remaining)
     for L in range(0, maxlen + 1):
         if L <= 4:
             jobs.append(("sw%d" % L, L, "", L))
         else:
-            for a in ALPHA:
-                for b in ALPHA:
-                    jobs.append(("sw%d_%d_%d" % (L, ALPHA.index(a), ALPHA.index(b)), L, a + b, L - 2))
-    lines = [sweep_line(j[0], j[3], j[2]) for j in jobs]
+            for a in alpha:
+                for b in alpha:
+                    jobs.append(("sw%d_%d_%d" % (L, alpha.index(a), alpha.index(b)), L, a + b, L - 2))
+    lines = [sweep_line(j[0], j[3], j[2], alpha) for j in jobs]
     impl = vlib.run_exe(vlib.VH, lines, timeout=1500)
     model = vlib.run_exe(vlib.VM, lines, timeout=1500)
     nstr = 0
     for (lid, L, prefix, rem) in jobs:
-        n = len(ALPHA) ** rem
+        n = len(alpha) ** rem
         nstr += n
         ctx.count("sweep:len=%d" % L, n)
         if impl.get(lid) != model.get(lid) or impl.get(lid) is None:
-            narrow(ctx, prefix, rem)
+            narrow(ctx, prefix, rem, alpha)
             if len(ctx.disagreements) > 3:
                 break
     ctx.evaluations += nstr
     ctx.traces += nstr
-    ctx.extra["exhaustive_strings"] = "all %d strings of length <= %d over %r" % (nstr, maxlen, ALPHA)
-    for a in ALPHA:
+    ctx.extra[key] = "all %d strings of length <= %d over %r" % (nstr, maxlen, alpha)
+    for a in alpha:
         ctx.nontrivial("sweep:" + a)
 
 # ------------------------------------------------------------------ built-in tables
@@ -339,7 +390,10 @@ def run_wrap(ctx, n):
 FMT_POOL = ["0.00", "#,##0", "General", "@", "yyyy-mm-dd", "d/m/yy h:mm", "[h]:mm:ss", "[mm]:ss", "mm:ss.0",
             "h:mm AM/PM", '"Week "dd', '"wk_"dd', "0*d", "[Red]0;[Blue]dd", "[$-409]mmmm d, yyyy", "[$-F800]dddd",
             'yyyy"\u5e74"m"\u6708"d"\u65e5"', '0 "R&D"', "[<100]dd;0", "[>=100][Magenta][s].00", "\\d0", "0;yy",
-            '#" "?/?', "0.0E+00", "[$\u20ac-407] #,##0.00", "dd\\.mm\\.yyyy", "h\"h\"mm", "General/", "\"a\"\"b\"dd"]
+            '#" "?/?', "0.0E+00", "[$\u20ac-407] #,##0.00", "dd\\.mm\\.yyyy", "h\"h\"mm", "General/", "\"a\"\"b\"dd",
+            # audit 2, FMT-1: the weekday column of ja / zh / ko workbooks, era year, Buddhist year
+            "aaa", "aaaa", "[$-411]aaaa", 'ggge"\u5e74"', "[$-411]ge.m.d", "e", "[$-404]e/m/d", "bbbb", "[$-D07041E]bbbb",
+            "##0.0E+0", "0.00e+00", "[Blue]General", '"("aaa")"']
 
 def gen_table(rng, kind):
     customs = []
@@ -603,6 +657,7 @@ def run(ctx):
     run_codes(ctx)
     run_wrap(ctx, ctx.scale(4000, 40000))
     run_sweep(ctx, ctx.scale(5, 7))
+    run_sweep(ctx, ctx.scale(5, 7), ALPHA2, "exhaustive_strings_2")
     run_xlsx_files(ctx, ctx.scale(300, 2500), "x")
     run_xlsx_raw(ctx, ctx.scale(100, 800), "r")
     run_biff_files(ctx, ctx.scale(250, 2000), "b", "xls")
@@ -613,6 +668,7 @@ def search(ctx):
     run_strings(ctx, ctx.scale(60000, 300000), "S")
     if ctx.tier != "thorough":
         run_sweep(ctx, 6)
+        run_sweep(ctx, 6, ALPHA2, "exhaustive_strings_2")
     run_xlsx_files(ctx, ctx.scale(600, 3000), "X")
     run_biff_files(ctx, ctx.scale(600, 3000), "B", "xls")
     run_biff_files(ctx, ctx.scale(600, 3000), "P", "xlsb")
